@@ -32,10 +32,10 @@ for key in sorted(needs):
             "pinned_test_suite_with_change": tests[-1].strip() if tests else None,
             "how": "tools/seedcheck.sh: scratch worktree of /repo HEAD; demo on the clean worktree, git apply patch.diff, demo again, pinned suite (pytest -n 6, guard off), quick check with VERIF_REPO=<worktree>, git checkout -- .",
         },
-        "quick_check_when_first_run": {"check": first[-1][0], "exit": int(first[-1][1])} if first else None,
+        "quick_check_when_first_run": {"check": first[0][0], "exit": int(first[0][1])} if first else None,
         "quick_check_now": {"check": last[-1][0], "exit": int(last[-1][1]), "violation_groups": int(last[-1][2]), "first_report": what[0][:200] if what else None} if last else None,
     }
     json.dump(meta, open(os.path.join(out, "meta.json"), "w"), indent=1)
     rows.append((key, meta["quick_check_when_first_run"], meta["quick_check_now"]))
 for r in rows:
-    print(r[0], "first:", r[1] and r[1]["exit"], "now:", r[2] and r[2]["exit"], (r[2] or {}).get("first_report", "")[:90] if r[2] else "")
+    print(r[0], "first:", r[1] and r[1]["exit"], "now:", r[2] and r[2]["exit"], ((r[2] or {}).get("first_report") or "")[:90])
